@@ -1,5 +1,6 @@
 import ServiceModel.Driver.Wire
 import ServiceModel.Inv.Monitors
+import ServiceModel.Driver.QueryWire
 open SM SM.Wire
 
 /-- model mode: read op lines (either bare, or prefixed `OP ` as in a harness trace; all
@@ -14,7 +15,7 @@ partial def modelLoop (h : IO.FS.Stream) (out : IO.FS.Stream) (st : Option State
     l.startsWith "PO " || l.startsWith "PR " || l.startsWith "WD " || l.startsWith "CX " ||
     l.startsWith "XQ " || l.startsWith "NQ " || l.startsWith "XH " || l.startsWith "NH " || l.startsWith "RQ " ||
     l.startsWith "AB " || l.startsWith "AI " || l.startsWith "RS " || l.startsWith "VO " || l.startsWith "EF " ||
-    l.startsWith "OE " || l.startsWith "garbage " || l.startsWith "#" || l.toList.all (· = ' ')
+    l.startsWith "OE " || l.startsWith "Q " || l.startsWith "G " || l.startsWith "garbage " || l.startsWith "#" || l.toList.all (· = ' ')
   let opLine : Option String :=
     if line.startsWith "OP " then some (String.ofList (line.toList.drop 3))
     else if isTraceLine line then none
@@ -22,6 +23,25 @@ partial def modelLoop (h : IO.FS.Stream) (out : IO.FS.Stream) (st : Option State
   match opLine with
   | none => modelLoop h out st
   | some l =>
+    if l.startsWith "query " then
+      match st, parseQuery (parseLine l).2 with
+      | some s, some q => do
+        let (r, recs) := runQuery s q
+        for ln in ["OP " ++ l, r] ++ recs.map ("Q " ++ ·) ++ sortLines (stateLines s) ++ ["END"] do out.putStrLn ln
+        modelLoop h out st
+      | _, _ => do
+        IO.eprintln s!"cannot parse query line: {l}"
+        IO.Process.exit 2
+    else if (genOpOf l).isSome then
+      match st, genOpOf l with
+      | some s, some g => do
+        let (s', lines) := runGenOp s g
+        for ln in ["OP " ++ l] ++ lines ++ ["END"] do out.putStrLn ln
+        if g = .reimport then return () else modelLoop h out (some s')
+      | _, _ => do
+        IO.eprintln "genesis op before genesis"
+        IO.Process.exit 2
+    else
     match parseOpLine l, st with
     | .bad msg, _ => do
       IO.eprintln msg
@@ -48,7 +68,7 @@ partial def modelLoop (h : IO.FS.Stream) (out : IO.FS.Stream) (st : Option State
       IO.Process.exit 2
 
 /-- read one step block of a harness trace: (op line, R line, E lines, state lines); `none` at end of input -/
-partial def readBlock (h : IO.FS.Stream) : IO (Option (String × String × List String × List String)) := do
+partial def readBlock (h : IO.FS.Stream) : IO (Option (String × String × List String × List String × List String)) := do
   let rec strip (l : String) : String := String.ofList (l.toList.reverse.dropWhile (fun c => c = '\n' || c = '\r')).reverse
   -- find the OP line
   let rec findOp : IO (Option String) := do
@@ -59,16 +79,17 @@ partial def readBlock (h : IO.FS.Stream) : IO (Option (String × String × List 
   match ← findOp with
   | none => return none
   | some op =>
-    let rec body (r : String) (es ss : List String) : IO (String × List String × List String) := do
+    let rec body (r : String) (es ss qs : List String) : IO (String × List String × List String × List String) := do
       let line ← h.getLine
-      if line.isEmpty then return (r, es.reverse, ss.reverse)
+      if line.isEmpty then return (r, es.reverse, ss.reverse, qs.reverse)
       let l := strip line
-      if l = "END" then return (r, es.reverse, ss.reverse)
-      else if l.startsWith "R " then body l es ss
-      else if l.startsWith "E " then body r (l :: es) ss
-      else body r es (l :: ss)
-    let (r, es, ss) ← body "" [] []
-    return some (op, r, es, ss)
+      if l = "END" then return (r, es.reverse, ss.reverse, qs.reverse)
+      else if l.startsWith "R " then body l es ss qs
+      else if l.startsWith "E " then body r (l :: es) ss qs
+      else if l.startsWith "Q " || l.startsWith "G " then body r es ss (l :: qs)
+      else body r es (l :: ss) qs
+    let (r, es, ss, qs) ← body "" [] [] []
+    return some (op, r, es, ss, qs)
 
 /-- monitor mode: evaluate every monitor on every step of a harness trace.
     Output: `V <step> <monitor> <message>` per violated clause, `P <step> <problem>` for
@@ -82,8 +103,43 @@ partial def monitorLoop (h : IO.FS.Stream) (out : IO.FS.Stream) : IO Unit := do
   repeat
     match ← readBlock h with
     | none => break
-    | some (opl, r, es, ss) =>
+    | some (opl, r, es, ss, qs) =>
       n := n + 1
+      if opl.startsWith "query " then
+        -- a query must answer from the stored state (decoded from the raw store scan of the previous block) and change nothing
+        match cfgp, pre, parseQuery (parseLine opl).2 with
+        | some (cfg, params), some s0, some q =>
+          let (s1, bad) := parseState cfg params ss
+          for b in bad do out.putStrLn s!"P {n} unparsable state line: {b}"; viol := viol + 1
+          if sortLines (stateLines s0) ≠ sortLines (stateLines s1) then
+            out.putStrLn s!"V {n} queryExact a query changed the state"; viol := viol + 1
+          let (r', recs) := runQuery s0 q
+          if r ≠ r' || qs ≠ recs.map ("Q " ++ ·) then
+            let miss := (recs.map ("Q " ++ ·)).filter (fun x => !qs.contains x)
+            let extra := qs.filter (fun x => !(recs.map ("Q " ++ ·)).contains x)
+            out.putStrLn s!"V {n} queryExact odd-address={queryOdd s0 q} code `{r}` ({qs.length} records) stored-state `{r'}` ({recs.length} records); missing {miss.take 2} extra {extra.take 2}"
+            viol := viol + 1
+          pre := some s1
+        | _, _, _ => out.putStrLn s!"P {n} cannot parse query"; viol := viol + 1
+      else if (genOpOf opl).isSome then
+        -- genesis ops: one model step from the implementation's previous state must give the implementation's block
+        match cfgp, pre, genOpOf opl with
+        | some (cfg, params), some s0, some g =>
+          let (s1, bad) := parseState cfg params ss
+          for b in bad do out.putStrLn s!"P {n} unparsable state line: {b}"; viol := viol + 1
+          let (_, lines) := runGenOp s0 g
+          let want := lines
+          let got := [r] ++ sortLines es ++ qs ++ (if g = .reimport then ss else sortLines (stateLines s1))
+          -- a panic's text is not compared, only that it is one
+          let norm (l : List String) : List String := l.map (fun x => if x.startsWith "R panic" then "R panic" else x)
+          if norm got ≠ norm want then
+            let miss := want.filter (fun x => !got.contains x)
+            let extra := got.filter (fun x => !want.contains x)
+            out.putStrLn s!"V {n} genesisLaw {opl}: odd-address={genesisOdd (exportG s0)} code `{r}` model `{want.headD ""}`; only model {miss.take 3} only code {extra.take 3}"
+            viol := viol + 1
+          pre := some s1
+        | _, _, _ => out.putStrLn s!"P {n} genesis op before genesis"; viol := viol + 1
+      else
       match parseOpLine opl with
       | .genesis cfg params _ _ =>
         cfgp := some (cfg, params)
